@@ -99,7 +99,7 @@ def flatten(o):
             "lin_vjp": o["adj"]["lin_vjp"], "lin_jvp": o["adj"]["lin_jvp"],
             "lin0_vjp": o["adj"].get("lin0_vjp", 0), "lin0_jvp": o["adj"].get("lin0_jvp", 0), "vjp_late": bool(v.get("late")),
             "vjp_primal_eq": v["primal_eq"], "jvp_primal_eq": j["primal_eq"], "box": o["primal"]["box"],
-            "intact": o["primal"]["intact"], "nest_eq": o["primal"]["nest_eq"],
+            "intact": o["primal"]["intact"], "nest_eq": o["primal"]["nest_eq"], "raw_eq": o["primal"].get("raw_eq", True),
             "second_checked": bool(o.get("second", {}).get("checked")), "second_nbad": o.get("second", {}).get("nbad", 0),
             "second_sym_bad": o.get("second", {}).get("sym_bad", 0), "second_num_bad": o.get("second", {}).get("num_bad", 0),
             "second_box": any(v_ == "box" for v_ in o.get("second", {}).get("modes", {}).values())}
@@ -116,7 +116,7 @@ def mirror(prop, r):
                      else "reverse-mode matrix differs from J^T (RevExact)")
     if prop in ("C02", "C14", "C17") and not fwd:
         fails.append("forward-mode matrix differs from J or tangent has the wrong structure (FwdExact)")
-    if prop in ("C09", "C11"):
+    if prop in ("C09", "C11", "C03"):
         if not rev:
             fails.append("reverse mode differs from conj(J_R^T conj g) (RevExact)")
         if not fwd:
@@ -173,6 +173,8 @@ def mirror(prop, r):
             fails.append("a user-supplied input was modified")
         if not r["nest_eq"]:
             fails.append("primal under nested differentiation differs from plain NumPy")
+        if not r["raw_eq"]:
+            fails.append("the value autograd.numpy returns for plain arguments differs from the value numpy itself returns for the same call")
     return fails
 
 
@@ -274,6 +276,7 @@ def run_rules(pid, tier, seed, fams, per_family_quick, level_rule, assumptions, 
         "exact_tier": sum(1 for o in ok if o.get("exact")), "projection_tier": sum(1 for o in ok if not o.get("exact")),
         "primitives_covered": len(prim_cov), "per_primitive": prim_cov,
         "primitives_whose_every_reverse_call_raised": always,
+        "values_compared_with_numpy_itself": sum(1 for o in ok if o.get("primal", {}).get("raw_checked")),
         "second_order_not_evaluated_harness": sum(1 for o in ok if o.get("second", {}).get("harness")),
         "observations_rejected_by_contract": nviol, "known_findings_reobserved": verdict.known_hits,
         "exhaustive": not quick,
@@ -394,6 +397,10 @@ def c07_second(tier, seed):
 INDEX_FAMILY = {"index": (2, 3, ["rr"]), "mixorder": (2, 2, ["rr"])}
 
 
+def c03_multi(tier, seed):
+    return run_rules("C03", tier, seed, INDEX_FAMILY, {"index": 350, "mixorder": 120}, RULE, ASSUME, write=False)
+
+
 def c11_index(tier, seed):
     return run_rules("C11", tier, seed, INDEX_FAMILY, 900, RULE, ASSUME, write=False)
 
@@ -443,12 +450,24 @@ def c19_history(verdict, tier, seed):
     a, _ = vlib.parallel_replay("rule_replay.py", cfgs, nproc=1, tag="hist-a")
     b, _ = vlib.parallel_replay("rule_replay.py", cfgs[::-1], nproc=1, tag="hist-b")
 
+    # the same with every warning promoted to an error: the join / rearrangement / reduction configurations (the library's own warnings -
+    # the slow-path hint of r_/c_, the independence warning - and NumPy's) in both orders; a warning that is only issued the first time
+    # makes the outcome of a later call depend on the earlier one
+    wfams = ("join", "rearr", "reduce", "where", "index", "special", "extend")
+    wcfgs = [c for c in cfgs if c["fam"] in wfams][:400 if quick else 2000]
+    wa, _ = vlib.parallel_replay("rule_replay.py", wcfgs, nproc=1, tag="hist-wa", extra_args=("--warnings-error",))
+    wb, _ = vlib.parallel_replay("rule_replay.py", wcfgs[::-1], nproc=1, tag="hist-wb", extra_args=("--warnings-error",))
+
     def sig(o):
         if o["status"] != "ok":
             return o["status"].split(":")[0]
         return "%s/%s" % (o["vjp"].get("digest") or o["vjp"].get("raised"), o["jvp"].get("digest") or o["jvp"].get("raised"))
     sb = {o["id"]: sig(o) for o in b}
     rows = [{"id": o["id"], "first": sig(o), "second": sb.get(o["id"], "missing")} for o in a]
+    nplain = len(rows)
+    swb = {o["id"]: sig(o) for o in wb}
+    off = len(cfgs)
+    rows += [{"id": off + o["id"], "first": sig(o), "second": swb.get(o["id"], "missing")} for o in wa]
     d = vlib.subdir("judge-hist")
     f = vlib.write_ndjson(os.path.join(d, "h.ndjson"), rows)
     accepted, g2, d2, _w, _inv = vlib.parallel_validate("TraceHistory", [f], cfg="SPECIFICATION Spec\n", njvm=1)
@@ -456,12 +475,15 @@ def c19_history(verdict, tier, seed):
     for r_ in rows:
         same = r_["first"] == r_["second"]
         if not vlib.reconcile("history row %d" % r_["id"], r_["id"] in accepted, same):
-            c = by[r_["id"]]
+            werr = r_["id"] > off
+            c = by[r_["id"] - off if werr else r_["id"]]
             fc = facets(c)
             fc["fails"] = ["history"]
-            verdict.violation(fc, {"reason": "the derivative matrices of this call depend on what was differentiated before it in the same process: "
-                                             "%s when the list is run forwards, %s when it is run backwards" % (r_["first"], r_["second"]), "cfg": c})
-    return {"states": st + d2, "transitions": tr + g2, "configurations_run_in_both_orders": len(rows), "accepted": len(accepted)}
+            verdict.violation(fc, {"reason": "the outcome of this call%s depends on what was differentiated before it in the same process: "
+                                             "%s when the list is run forwards, %s when it is run backwards" %
+                                             (" (warnings promoted to errors)" if werr else "", r_["first"], r_["second"]), "cfg": c, "warnings_error": werr})
+    return {"states": st + d2, "transitions": tr + g2, "configurations_run_in_both_orders": nplain,
+            "configurations_run_in_both_orders_with_warnings_as_errors": len(rows) - nplain, "accepted": len(accepted)}
 
 
 def c12_tuples(tier, seed):
